@@ -12,7 +12,8 @@
 //   C10_replay ties <stump|hinge>
 // one scalar feature with TIED values {1,1,1,1,2,2,2,2,3,3} and residuals that vary inside the tied groups; the real learner is
 // fitted with the RSS criterion and the clause is evaluated natively: the stored threshold must lie strictly between two
-// different feature values (never on one), and the RSS of the learner's own predictions must be the RSS it returned.
+// different consecutive feature values a < b (a < threshold <= b), and the RSS of the learner's own predictions must be the RSS it returned.
+// `ties <learner> adjacent` uses the consecutive doubles 1, 1 + ulp, 1 + 2 ulp instead (the mid-point of two adjacent doubles rounds onto one of them).
 //   exit 1: violated, exit 0 otherwise
 #include <nano/dataset.h>
 #include <nano/generator/elemwise_identity.h>
@@ -134,7 +135,8 @@ static int ties_scenario(const char* name, scalar_t (*threshold_of)(const twlear
         on_value = on_value || ties_datasource_t::value(i) == threshold;
     }
     const auto v0 = ties_datasource_t::value(0), v1 = ties_datasource_t::value(4), v2 = ties_datasource_t::value(8);
-    const auto between = (v0 < threshold && threshold < v1) || (v1 < threshold && threshold < v2);
+    // usable threshold: `value < threshold` cuts between two different consecutive values a < b, i.e. a < threshold <= b
+    const auto between = (v0 < threshold && threshold <= v1) || (v1 < threshold && threshold <= v2);
 
     const auto outputs     = wlearner.predict(dataset, samples);
     auto       predict_rss = 0.0;
@@ -146,9 +148,9 @@ static int ties_scenario(const char* name, scalar_t (*threshold_of)(const twlear
     const auto same_rss = std::fabs(predict_rss - fit_rss) <= 1e-9 * (1.0 + std::fabs(fit_rss));
 
     std::printf("%s fitted on x = {a,a,a,a,b,b,b,b,c,c} with (a,b,c) = (%.17g, %.17g, %.17g): threshold=%.17g (%s), returned RSS=%.12g, RSS of its predictions=%.12g (%s)\n", name,
-                v0, v1, v2, threshold, on_value ? "ON a feature value" : (between ? "between two different values" : "outside"),
+                v0, v1, v2, threshold, between ? (on_value ? "cuts between two different values, on the upper one" : "between two different values") : (on_value ? "ON a feature value it should separate from the next" : "outside"),
                 fit_rss, predict_rss, same_rss ? "reproduced" : "NOT reproduced");
-    return (on_value || !between || !same_rss) ? 1 : 0;
+    return (!between || !same_rss) ? 1 : 0;
 }
 
 int main(int argc, char* argv[])
